@@ -182,33 +182,10 @@ contract('parso.python.tokenize._get_token_collection', params={'version_info': 
          trusted=True, ensures=TC_FACTS, lists=[], modifies=['_token_collection_cache', '$maps'],
          note='memoised table of compiled patterns per version; the shape facts are the T obligations tok:<v>:tables')
 
-INC_ = 'forall(lambda k: implies(0 < k and k < len(indents), indents[k - 1] < indents[k]), trigger=lambda k: indents[k])'
-IND_WF = ['indents is not None', 'len(indents) >= 1', 'indents[0] == 0', INC_]
-ENDPATS_NN = 'forall(lambda k: implies(k in endpats, endpats[k] is not None), kinds=dict(k="str"))'
-FS_WF = ['fstring_stack is not None', 'fstring_stack is not indents', QUOTES_KNOWN,
-         'forall(lambda k: implies(0 <= k and k < len(fstring_stack), fstring_stack[k].previous_lines == ""), trigger=lambda k: fstring_stack[k])']
-TL_VARS = {'endprog': 'ref:re.Pattern', 'contstr_start': 'pos', 'contline': 'str', 'spos': 'pos', 'token': 'str', 'initial': 'str',
-           'start': 'int', 'tos': 'ref:FStringNode', 'string_line': 'str', 'pseudomatch': 'ref:re.Match', 'match': 'ref:re.Match',
-           'endmatch': 'ref:re.Match', 'end_match': 'ref:re.Match', 'string': 'str', 'rest': 'str', 'quote_length': 'int',
-           'fstring_end_token': 'ref:PythonToken', 'quote': 'str', 'end_match_string': 'str', 'indent_start': 'int', 'm': 'ref:re.Match',
-           'fstring_stack_node': 'ref:FStringNode'}
-TABLES = ['pseudo_token is not None', 'whitespace is not None', 'endpats is not None', 'fstring_pattern_map is not None', ENDPATS_NN,
-          'forall(lambda k: implies(k in fstring_pattern_map, len(fstring_pattern_map[k]) >= 1 and fstring_pattern_map[k] in endpats), kinds=dict(k="str"))',
-          'forall(lambda q: implies(q in triple_quoted, q in endpats), kinds=dict(q="str"))',
-          'forall(lambda q: implies(q in single_quoted, len(q) >= 1 and len(q) <= 3 and q[len(q) - 1:] in endpats), kinds=dict(q="str"))']
-contract('parso.python.tokenize.tokenize_lines', kind='generator',
-         params={'lines': 'list:str', 'version_info': 'pos', 'indents': 'list:int', 'start_pos': 'pos', 'is_first_token': 'bool'},
-         yields='ref:PythonToken',
-         requires=['lines is not None', 'start_pos[1] == 0',
-                   'indents is None or (len(indents) >= 1 and indents[0] == 0 and %s)' % INC_],
-         yield_ensures=['y is not None'],
-         ensures=[],
-         raises=[],
-         loops={0: dict(invariant=IND_WF + FS_WF + TABLES + ['implies(contstr != "", endprog is not None)'],
-                        snapshot=True, vars=TL_VARS, maps_stable=True),
-                1: dict(invariant=IND_WF + FS_WF + TABLES + ['0 <= pos', 'pos <= max_', 'max_ == len(line)', 'contstr == ""'],
-                        vars=TL_VARS, maps_stable=True),
-                2: dict(invariant=IND_WF + FS_WF + TABLES + ['0 <= pos', 'pos <= max_', 'max_ == len(line)'], vars=TL_VARS, maps_stable=True,
-                        len_stable=True),
-                3: dict(invariant=['indents is not None'], snapshot=True)},
-         locals_={'fstring_stack': 'list:ref:FStringNode'}, match_layout={'pseudo_token': [1, 2]}, props=['C09', 'C02'])
+# The main loop of tokenize_lines is NOT under contract.  A totality contract (invariants for the indentation stack, the
+# f-string stack, the token tables; eight facts about single regex matches imported from RegLan obligations) was drafted
+# and executed symbolically (about 6000 statements, 700 paths, 160 obligations) -- see drafts/tokenize_lines.py -- but z3's
+# string theory does not return on some of its path conditions (it spins in theory_seq::propagate, honouring neither
+# the time nor the resource limit), so it is not registered: a check must never hang.  The helpers it calls are under
+# contract above (dedent_if_necessary, _find_fstring_string, _close_fstring_if_necessary, _split_illegal_unicode_name,
+# FStringNode.*), and the facts about the token tables are T obligations (tok:<v>:tables).
